@@ -210,14 +210,8 @@ class CTR(Mode):
         self.counter.reset()
         self.pad.reset()
         P = self.enc(C)
-        n,p = divmod(len(C),self.len)
-        if p>0:
-            assert len(P)==n+1
-            res = P[:-p]
-        else:
-            assert len(P)==n
-            res = P
-        return res
+        assert len(P)==len(C)
+        return P
 
 # -----------------------------------------------------------------------------
 # Chain mode of Operation Core class for Digest algorithms, nopadding default
